@@ -20,7 +20,7 @@ From NS Require Import Base.NoteSeq Base.FloatBridge Gen.G01 Gen.G06 Gen.G07 Mod
   Model.RenderCommon Model.RenderMelody Model.RenderDrums Model.RenderChords Model.RenderPianoroll
   Model.RenderPerformance Model.RenderFloat
   Proofs.FqCommon Proofs.RenderMelody Proofs.RenderDrums Proofs.RenderChords Proofs.RenderPianoroll
-  Proofs.RenderPerformance Proofs.RenderPerfCanon Proofs.RenderFloat Proofs.RenderSamples Proofs.RenderCompose.
+  Proofs.RenderPerformance Proofs.RenderPerfCanon Proofs.RenderPerfWide Proofs.RenderFloat Proofs.RenderSamples Proofs.RenderCompose.
 Import ListNotations.
 Local Open Scope Z_scope.
 
@@ -170,6 +170,54 @@ Theorem C06_extraction_canonical_perf : forall p ns,
 Proof. exact extraction_canonical_perf. Qed.
 Print Assumptions C06_extraction_canonical_perf.
 
+(** ** the wider class: one pitch may sound twice at once.  [_to_sequence] pairs NOTE_OFFs with pending NOTE_ONs
+    first-in-first-out; [canonical_perf_w] = [canonical_perf] with re-opening of an open pitch allowed and the order
+    rules of a step non-strict.  The extractor's input may contain overlapping notes of one pitch as long as they
+    are not NESTED ([no_nested_same_pitch], a boolean); for nested ones the claim is false
+    ([C06_perf_nested_refuted]), so the boundary is a theorem on both sides. *)
+Theorem C06_roundtrip_steps_perf_w : forall p dv i pr drum es,
+  1 <= fp_max_shift p -> (fp_bins p = 0 \/ 1 <= fp_bins p) ->
+  (match fp_instrument p with None => True | Some j => j = i end) ->
+  canonical_perf_w (fp_bins p) (fp_max_shift p) es = true ->
+  pf_from_quantized p (pf_rnotes p dv i pr drum es) = es.
+Proof. exact roundtrip_steps_perf_w. Qed.
+Print Assumptions C06_roundtrip_steps_perf_w.
+
+Theorem C06_extraction_canonical_perf_w : forall p ns,
+  1 <= fp_max_shift p -> (fp_bins p = 0 \/ 1 <= fp_bins p) ->
+  Forall (fun n => n_qstart n < n_qend n /\ MIN_MIDI_VELOCITY <= n_vel n) ns ->
+  no_nested_same_pitch (pf_selected p ns) = true -> times_follow_steps (pf_selected p ns) ->
+  canonical_perf_w (fp_bins p) (fp_max_shift p) (pf_from_quantized p ns) = true.
+Proof. exact extraction_canonical_perf_w_flat. Qed.
+Print Assumptions C06_extraction_canonical_perf_w.
+
+Theorem C06_roundtrip_extracted_perf_w : forall p dv i pr drum ns,
+  1 <= fp_max_shift p -> (fp_bins p = 0 \/ 1 <= fp_bins p) ->
+  Forall (fun n => n_qstart n < n_qend n /\ MIN_MIDI_VELOCITY <= n_vel n) ns ->
+  no_nested_same_pitch (pf_selected p ns) = true -> times_follow_steps (pf_selected p ns) ->
+  (match fp_instrument p with None => True | Some j => j = i end) ->
+  let es := pf_from_quantized p ns in
+  pf_from_quantized p (pf_rnotes p dv i pr drum es) = es.
+Proof. exact roundtrip_extracted_perf_w_flat. Qed.
+Print Assumptions C06_roundtrip_extracted_perf_w.
+
+Theorem C06_canonical_perf_implies_w : forall nb ms es,
+  canonical_perf nb ms es = true -> canonical_perf_w nb ms es = true.
+Proof. exact canonical_perf_implies_w. Qed.
+Print Assumptions C06_canonical_perf_implies_w.
+
+(** nested same-pitch notes (60@0..8, 64@1..6, 60@2..6; every other hypothesis holding): the extracted performance
+    is not canonical and is NOT a fixpoint of render-then-extract, on the model of the unchanged code *)
+Theorem C06_perf_nested_refuted : exists p dv i pr drum ns,
+  1 <= fp_max_shift p /\ (fp_bins p = 0 \/ 1 <= fp_bins p) /\
+  Forall (fun n => n_qstart n < n_qend n /\ MIN_MIDI_VELOCITY <= n_vel n) ns /\
+  times_follow_steps (pf_selected p ns) /\
+  no_nested_same_pitch (pf_selected p ns) = false /\
+  canonical_perf_w (fp_bins p) (fp_max_shift p) (pf_from_quantized p ns) = false /\
+  pf_from_quantized p (pf_rnotes p dv i pr drum (pf_from_quantized p ns)) <> pf_from_quantized p ns.
+Proof. exact perf_nested_refuted. Qed.
+Print Assumptions C06_perf_nested_refuted.
+
 (** * Float level: step -> seconds -> step, for the three seconds_per_step formulas *)
 Theorem C06_step_time_roundtrip_rel : forall qpm spq n s0,
   fin qpm -> (10 <= R_of qpm <= 480)%R -> 1 <= spq <= 96 ->
@@ -313,7 +361,7 @@ Theorem C06_roundtrip_performance : forall sps p dv i pr drum es,
   1 <= sps <= 1000 -> 0 <= fp_start p ->
   1 <= fp_max_shift p -> (fp_bins p = 0 \/ 1 <= fp_bins p) ->
   (match fp_instrument p with None => True | Some j => j = i end) ->
-  canonical_perf (fp_bins p) (fp_max_shift p) es = true ->
+  canonical_perf_w (fp_bins p) (fp_max_shift p) es = true ->
   steps_in_range (fp_start p) (pf_rnotes p dv i pr drum es) = true ->
   pf_from_quantized p (map (requant_note (rt_abs sps) (fp_start p)) (pf_rnotes p dv i pr drum es)) = es.
 Proof. exact roundtrip_perf_float. Qed.
@@ -323,7 +371,7 @@ Theorem C06_roundtrip_metric_performance : forall qpm spq p dv i pr drum es,
   fin qpm -> (10 <= R_of qpm <= 480)%R -> 1 <= spq <= 96 -> 0 <= fp_start p ->
   1 <= fp_max_shift p -> (fp_bins p = 0 \/ 1 <= fp_bins p) ->
   (match fp_instrument p with None => True | Some j => j = i end) ->
-  canonical_perf (fp_bins p) (fp_max_shift p) es = true ->
+  canonical_perf_w (fp_bins p) (fp_max_shift p) es = true ->
   steps_in_range (fp_start p) (pf_rnotes p dv i pr drum es) = true ->
   pf_from_quantized p (map (requant_note (rt_metric qpm spq) (fp_start p)) (pf_rnotes p dv i pr drum es)) = es.
 Proof. exact roundtrip_metric_float. Qed.
@@ -366,6 +414,10 @@ Print Assumptions C06_perf_nonvacuous.
 Example C06_perf_canonical_nonvacuous : ltac:(let t := type of perf_canonical_example in exact t).
 Proof. exact perf_canonical_example. Qed.
 Print Assumptions C06_perf_canonical_nonvacuous.
+
+Example C06_perf_wide_nonvacuous : ltac:(let t := type of perf_wide_example in exact t).
+Proof. exact perf_wide_example. Qed.
+Print Assumptions C06_perf_wide_nonvacuous.
 
 Example C06_step_time_nonvacuous : ltac:(let t := type of step_time_roundtrip_nonvacuous in exact t).
 Proof. exact step_time_roundtrip_nonvacuous. Qed.
